@@ -158,7 +158,7 @@ Definition verdict (c : case) : Z * Z :=
       | None => declined
       | Some st =>
           judge zlist_eqb obs
-                (arg_expect (model_throws fn a) (negb ((fn =? 5) || (fn =? 6))))
+                (arg_expect (model_throws fn a) (negb ((fn =? 5) || (fn =? 6) || (fn =? 7))))
                 (arg_expect st true) cl_msg
       end
   | CTrace files limit levels r hdr obs =>
